@@ -16,6 +16,20 @@ type Extension interface {
 	GetTrack(stopTimeUpdate *gtfsrt.TripUpdate_StopTimeUpdate) *string
 }
 
+// PerFeedExtension is an optional interface for extensions that keep state while
+// a feed is being parsed (for example to deduplicate entities within the feed).
+//
+// When the extension in the parse options implements it, ParseRealtime calls NewFeed
+// once per call and uses the returned extension for that feed only. State therefore
+// never leaks from one feed into the next, and one extension value can be shared
+// by concurrent ParseRealtime calls.
+type PerFeedExtension interface {
+	Extension
+
+	// NewFeed returns an extension with the same options and fresh per-feed state.
+	NewFeed() Extension
+}
+
 type UpdateTripResult struct {
 	// Whether this trip should be skipped.
 	ShouldSkip bool
